@@ -1002,6 +1002,11 @@ func (val Value) HasIndex(key Value) Value {
 		return UnknownVal(Bool).RefineNotNull()
 	}
 
+	if key.IsNull() {
+		// A null key is not the key of any element.
+		return False
+	}
+
 	switch {
 	case val.Type().IsListType():
 		if key.Type() == DynamicPseudoType {
